@@ -94,9 +94,9 @@ DYNAMIC_TIE = {"keycodes", "layoutkeys", "rankcmp"}
 SOFT_TIE = {"logicconsts"}
 
 # which theorems of RitiModel/Tie.lean matter to which property: by the part of the model the property's theorems are about
-_TIE_PH = {"last_rank_numbers", "length_guards", "joining_characters", "emoji_rank_starts"}      # phonetic candidate list
+_TIE_PH = {"last_rank_numbers", "length_guards", "joining_characters", "emoji_rank_starts", "char_classes_are_spec"}      # phonetic candidate list
 _TIE_FL = {"fixed_truncation", "emoji_rank_starts"}                                                 # fixed candidate list
-_TIE_PKV = {"sign_vowel_tables", "special_values"}                                                  # process_key_value
+_TIE_PKV = {"sign_vowel_tables", "special_values", "char_classes_are_spec"}                                                  # process_key_value
 _TIE_LOCAL = {"C03": _TIE_PH, "C04": _TIE_PKV, "C07": _TIE_PH, "C08": _TIE_PH, "C09": _TIE_PH, "C12": _TIE_PKV, "C13": _TIE_PKV,
               "C14": _TIE_PKV, "C15": _TIE_FL | _TIE_PKV}
 def tie_scope(pid):
